@@ -209,3 +209,37 @@ func VH_C16_copy_capability() {
 	p, err := rp.Struct().Ptr(0)
 	vAssert(err == nil && p.flags.ptrType() == interfacePtrType && int(p.Interface().Capability()) == k, "C16.cap.index-is-new-entry")
 }
+
+// copies inside ONE message (Struct.CopyFrom / List.SetStruct) are deep too: the copy's list does
+// not alias the source's list
+func VH_C16_copy_same_message() {
+	_, seg := vNewMsg()
+	src, err := NewStruct(seg, ObjectSize{DataSize: 8, PointerCount: 1})
+	vAssume(err == nil)
+	payload := vNondetBytes(2)
+	vAssume(src.SetData(0, payload) == nil)
+	viaList := vNondetBool()
+	var dst Struct
+	if viaList {
+		l, err := NewCompositeList(seg, ObjectSize{DataSize: 8, PointerCount: 1}, 1)
+		vAssume(err == nil)
+		vAssume(l.SetStruct(0, src) == nil)
+		dst = l.Struct(0)
+	} else {
+		dst, err = NewStruct(seg, ObjectSize{DataSize: 8, PointerCount: 1})
+		vAssume(err == nil)
+		vAssume(dst.CopyFrom(src) == nil)
+	}
+	vReach("copied")
+	sp, e1 := src.Ptr(0)
+	dp, e2 := dst.Ptr(0)
+	vAssert(e1 == nil && e2 == nil, "C16.same.readable")
+	if e1 != nil || e2 != nil {
+		return
+	}
+	vAssert(len(dp.Data()) == 2 && dp.Data()[0] == payload[0] && dp.Data()[1] == payload[1], "C16.same.list-copied")
+	vAssert(!vSameArray(sp.Data(), dp.Data()) || sp.off != dp.off, "C16.same.list-storage-distinct")
+	sp.Data()[0] ^= 0xff
+	dp2, _ := dst.Ptr(0)
+	vAssert(dp2.Data()[0] == payload[0], "C16.same.independent-of-source-mutation")
+}
